@@ -617,6 +617,28 @@ def scalarNumL (db : Db) (f : BinOp) (k : Rat) (q : Nat) (x : Rat) : M Nat := do
     let z ← liftE (binNum f k x)
     newObj (.scalar q z)
 
+/-- the loop of `Scalar.__pow__`: `result = result * self`, `n` more times; the intermediate Scalars are
+temporaries (not pool members), every product goes through `Multiply` with its copies and in-place edits -/
+def powLoop (db : Db) (q0 : Nat) (x0 : Rat) : Nat → Nat → Rat → M (Nat × Rat)
+  | 0, q, x => pure (q, x)
+  | n + 1, q, x => do
+    let r ← opFunc db .mul q q0 (.num x) (.num x0)
+    let z ← liftE (valNum r.2)
+    powLoop db q0 x0 n r.1 z
+
+/-- `x ** exponent` (`Scalar.__pow__`, integer exponent): `range(exponent - 1)` multiplications; for an exponent
+below 2 (0 and negative ones included) the loop does not run and the result IS `self`; the other classes have
+no `__pow__` (TypeError) -/
+def scalarPow (db : Db) (i : Nat) (e : Int) : M (Nat × Bool) := do
+  match (← getObj i) with
+  | .scalar q x =>
+    if e ≤ 1 then pure (i, false)
+    else do
+      let r ← powLoop db q x (e.toNat - 1) q x
+      let j ← newObj (.scalar r.1 r.2)
+      pure (j, true)
+  | _ => failM .type
+
 /-- the per-element loop of `Array._DoOperation` (list/tuple containers) -/
 def elemLoop (db : Db) (f : BinOp) (q1 q2 : Nat) : List (Rat × Rat) → Nat → M (Nat × List Rat)
   | [], q => pure (q, [])
@@ -1231,6 +1253,7 @@ inductive Op
   | mkFScalar (number : Rat) (num : Int) (den : Nat) (unit cat : Sym)
   | mkDerived (cls : Cls) (items : List (Sym × Sym × Int)) (v : Rat) (k : Kind) (xs : List Rat)
   | arith (f : BinOp) (a b : Operand)
+  | pow (i : Nat) (e : Int)            -- `pool[i] ** e`
   | eq (i j : Nat)
   | lt (i j : Nat)
   | getValue (i : Nat) (unit : Option Sym)
@@ -1260,6 +1283,7 @@ def exec (db : Db) : Op → M Out
   | .mkFScalar n a b u c => fresh (mkFScalar db n a b u c)
   | .mkDerived cls items v k xs => fresh (mkDerived db cls items v k xs)
   | .arith f a b => fresh (arith db f a b)
+  | .pow i e => do let r ← scalarPow db i e; pure (.obj r.1 r.2)
   | .eq i j => do let b ← objEq i j; pure (.bool b)
   | .lt i j => do let b ← objLt db i j; pure (.bool b)
   | .getValue i u => getValue db i u
